@@ -225,12 +225,18 @@ func BipartiteKneserGraph(n, k int) *DenseGraph {
 		panic("calculating the size of the graph overflows int")
 	}
 
+	//One set is a subset of the other exactly when the intersection is all of the smaller set.
+	smaller := k
+	if n-k < smaller {
+		smaller = n - k
+	}
+
 	g := NewDense(size, nil)
 	for i := 0; i < N; i++ {
 		combi := comb.Unrank(i, k)
 		for j := 0; j < N; j++ {
 			combj := comb.Unrank(j, n-k)
-			if sortints.IntersectionSize(combi, combj) == k {
+			if sortints.IntersectionSize(combi, combj) == smaller {
 				g.AddEdge(i, N+j)
 			}
 		}
